@@ -34,7 +34,7 @@ def fj(sets=None, flavour="O2", weight=1.0, tiers=("quick", "thorough")):
 
 SYNC_SHRINK = {"mode": 0, "span": 1, "nused": 1, "nops": 1, "dtor_pm": 1000, "set_pm": 1000, "null_pm": 0, "exitmode": 0, "nworkers": 1, "yield_pm": 0, "parent_first": 0, "nthreads": 1, "nacq": 1, "nmutex": 1, "try_pm": 0, "timed_pm": 0,
                "cs_points": 0, "helper_pm": 0, "np": 1, "nc": 1, "cap": 1, "k": 1, "nwaiters": 1, "rounds": 1, "n": 1,
-               "racer": -1, "ndeccers": 1, "late": 0, "items": 1, "pairs": 1, "readers": 0, "ncallers": 1, "nctl": 1}
+               "racer": -1, "ndeccers": 1, "late": 0, "items": 1, "pairs": 1, "readers": 0, "ncallers": 1, "nctl": 1, "ncycles": 1, "maxw": 1, "race": 0, "ncalls": 1, "nsib": 0, "hold": 0}
 
 def sy(cls, sets=None, flavour="O2", weight=1.0, tiers=("quick", "thorough")):
     return {"bin": "mvh", "cls": cls, "sets": sets or {}, "flavour": flavour, "weight": weight, "tiers": tiers, "shrink": SYNC_SHRINK}
@@ -79,8 +79,16 @@ PROPS = {
     "C14": {"jobs": sync_jobs("once"), "relevant_probes": ["once_cas", "once_spin", "once_done_wr"]},
     "C10": {"jobs": [sy("tls", flavour="asan", weight=4), sy("tls", weight=3), sy("tls", {"mode": 2}, weight=2), sy("tls", flavour="O0", weight=1)],
             "relevant_probes": ["key_cas", "key_rd", "p_steal_hit"],
-            "rule": "each evaluation is one simulated execution of a seeded key-usage plan (sequential create/delete/set/get history over all 1024 indices, threads with private dictionaries migrating between workers, or concurrent create/delete); non-trivial = a cross-worker preemption happened and (a thread migrated | key CASes raced | sequential history); distinct = distinct event-sequence signatures. Input coverage (key indices that held a value) is reported separately as x_key_indices_covered."},
+            "rule": "each evaluation is one simulated execution of a seeded key-usage plan (sequential create/delete/set/get history over all 1024 indices, threads with private dictionaries migrating between workers, or concurrent create/delete); non-trivial = a cross-worker preemption happened and (a thread migrated | key CASes raced | sequential history); distinct = distinct event-sequence signatures. Input coverage (key indices that held a value) is reported separately as x_key_indices_that_held_a_value_distinct_count."},
     "C11": {"jobs": [sy("dtor", flavour="asan", weight=4), sy("dtor", weight=3), sy("dtor", flavour="O0", weight=1)],
             "relevant_probes": ["p_finish_waiter", "p_finish_next", "p_finish_sched"],
-            "rule": "each evaluation is one simulated execution in which threads store values under a seeded subset of keys spread over the index range (always including the highest created index, with deleted keys in between so that earlier tree branches are empty) and terminate by return / myth_exit / cancellation; non-trivial = at least one cross-worker preemption; distinct = distinct event-sequence signatures. The decisive dimension is the key subset (input), reported as x_key_indices_covered."},
+            "rule": "each evaluation is one simulated execution in which threads store values under a seeded subset of keys spread over the index range (always including the highest created index, with deleted keys in between so that earlier tree branches are empty) and terminate by return / myth_exit / cancellation; non-trivial = at least one cross-worker preemption; distinct = distinct event-sequence signatures. The decisive dimension is the key subset (input), reported as x_key_indices_that_held_a_value_distinct_count."},
+    "C15": {"jobs": [sy("initfini", weight=6), sy("initfini", flavour="O0", weight=1), sy("initfini", flavour="asan", weight=1),
+                     {"bin": "mvh", "cls": "envstrings", "py": "envcheck", "weight": 1, "flavour": "O2"}],
+            "relevant_probes": ["p_main_migrate_back", "init_cas", "init_spin", "exit_flag_wr"],
+            "rule": "simulated part: each evaluation is one seeded init/fini history (1..8 cycles, 1..64 workers requested through attribute object / environment / implicit first use, or 2-3 native contexts racing the first use) under a seeded schedule; non-trivial = a cross-worker preemption happened AND (myth_fini had to migrate the main thread back to worker 0 OR several contexts raced myth_init); distinct = distinct event signatures. Input part (not simulation): x_env_cases fresh processes with seeded malformed configuration strings, counted in evaluations but never in distinct_nontrivial.",
+            "components": {"real": "all of /repo/src; the environment-string part runs the real worker pthreads (simulator inactive)", "stubbed": "simulated part: worker OS threads (coroutines), start-up barrier, RNG"}},
+    "C20": {"jobs": [sy("timed", weight=5), sy("timed", {"nworkers": 1, "nsib": 2, "mode": 0}, weight=2), sy("timed", flavour="O0", weight=1), sy("timed", flavour="asan", weight=1)],
+            "relevant_probes": ["mutex_cas", "p_free_ready2"],
+            "rule": "each evaluation is one simulated execution of 1..8 sleeps / timed locks / timed joins against the virtual clock (coarse: zero increments; forward jumps), durations from 0 to seconds with boundary nanosecond fields, past/present/future deadlines; non-trivial = a cross-worker preemption happened and the library read the clock at least once; distinct = distinct event signatures"},
 }
